@@ -6,7 +6,8 @@ namespace Ecal.Pool
 theorem length_eq_sum (pcs : List PC) :
     pcs.length = cntOf pcs .head + cntOf pcs .chkT + cntOf pcs .chkF + cntOf pcs .run + cntOf pcs .noTask + cntOf pcs .idleReg
       + cntOf pcs .hasL + cntOf pcs .readQT + cntOf pcs .readQF + cntOf pcs .willWait + cntOf pcs .waiting
-      + cntOf pcs .woken + cntOf pcs .unlocking + cntOf pcs .unreg + cntOf pcs .exiting + cntOf pcs .gone := by
+      + cntOf pcs .woken + cntOf pcs .unlocking + cntOf pcs .unreg + cntOf pcs .drained + cntOf pcs .exiting
+      + cntOf pcs .gone := by
   induction pcs with
   | nil => simp [cntOf]
   | cons x xs ih =>
@@ -25,6 +26,28 @@ theorem lt_of_getElem? {pcs : List PC} {i : Nat} {p : PC} (h : pcs[i]? = some p)
   · exact h'
   · simp [List.getElem?_eq_none h'] at h
 
+/-- `task.Run` returning: the only internal event whose occurrence depends on the task's code -/
+def isFinish : Event → Bool
+  | .finish _ => true
+  | _ => false
+
+/-- events the pool performs on its own: worker steps and the rest of calls already in flight
+    (not: a new AddTask / SetWorkerCount / JoinAll, a polling broadcast) -/
+def isInternal : Event → Bool
+  | .aPush _ | .swcUp _ | .swcDown _ | .swcSet _ | .joinKill | .bcast => false
+  | _ => true
+
+/-- a worker takes a task from the queue = the task is started -/
+def isPop : Event → Bool
+  | .pop _ _ => true
+  | _ => false
+
+theorem internal_abs (s : State) (e : Event) : (absEvent s e).internal = isInternal e := by
+  cases e <;> simp [absEvent, CEvent.internal, isInternal]
+
+theorem isPop_abs (s : State) (e : Event) : (absEvent s e).isPop = isPop e := by
+  cases e <;> simp [absEvent, CEvent.isPop, isPop]
+
 theorem mem_internal_worker {s : State} {i : Nat} {e : Event} (hi : i < s.pcs.length)
     (he : e ∈ workerEvents i s) : e ∈ internalEvents s := by
   simp only [internalEvents, List.mem_append, List.mem_flatMap, List.mem_range]
@@ -32,53 +55,55 @@ theorem mem_internal_worker {s : State} {i : Nat} {e : Event} (hi : i < s.pcs.le
 
 /-- a worker that is not parked (`waiting`), not gone, and does not need `L` while it is taken can step -/
 theorem worker_enabled {s : State} {i : Nat} {p : PC} (h : s.pcs[i]? = some p)
-    (hb : p.cls ≠ .waiting ∧ p.cls ≠ .gone) (hl : lockFree s = true ∨ (p.cls ≠ .idleReg ∧ p.cls ≠ .woken)) :
-    ∃ e ∈ internalEvents s, (step repaired s e).isSome := by
+    (hb : p.cls ≠ .waiting ∧ p.cls ≠ .gone ∧ p.cls ≠ .run)
+    (hl : lockFree s = true ∨ (p.cls ≠ .idleReg ∧ p.cls ≠ .woken)) :
+    ∃ e ∈ internalEvents s, isFinish e = false ∧ (step repaired s e).isSome := by
   have hlt := lt_of_getElem? h
   cases p with
   | head =>
     by_cases hk : 0 < s.kill
-    · exact ⟨.killExit i, mem_internal_worker hlt (by simp [workerEvents]), by simp [step, h, hk]⟩
-    · exact ⟨.killPass i, mem_internal_worker hlt (by simp [workerEvents]), by simp [step, h, hk]⟩
+    · exact ⟨.killExit i, mem_internal_worker hlt (by simp [workerEvents]), rfl, by simp [step, h, hk]⟩
+    · exact ⟨.killPass i, mem_internal_worker hlt (by simp [workerEvents]), rfl, by simp [step, h, hk]⟩
   | chk ok =>
     cases hq : s.queue with
-    | nil => exact ⟨.popNone i, mem_internal_worker hlt (by simp [workerEvents]), by simp [step, h, hq]⟩
+    | nil => exact ⟨.popNone i, mem_internal_worker hlt (by simp [workerEvents]), rfl, by simp [step, h, hq]⟩
     | cons t rest =>
-      exact ⟨.pop i t, mem_internal_worker hlt (by simp [workerEvents, hq]), by simp [step, h, hq]⟩
-  | run t => exact ⟨.finish i, mem_internal_worker hlt (by simp [workerEvents]), by simp [step, h]⟩
-  | noTask => exact ⟨.regIdle i, mem_internal_worker hlt (by simp [workerEvents]), by simp [step, h]⟩
+      exact ⟨.pop i t, mem_internal_worker hlt (by simp [workerEvents, hq]), rfl, by simp [step, h, hq]⟩
+  | run t => simp [PC.cls] at hb
+  | noTask => exact ⟨.regIdle i, mem_internal_worker hlt (by simp [workerEvents]), rfl, by simp [step, h]⟩
+  | drained => exact ⟨.drainExit i, mem_internal_worker hlt (by simp [workerEvents]), rfl, by simp [step, h]⟩
   | idleReg =>
     have hf : lockFree s = true := by
       rcases hl with hl | hl
       · exact hl
       · simp [PC.cls] at hl
-    exact ⟨.wLock i, mem_internal_worker hlt (by simp [workerEvents]), by simp [step, h, hf]⟩
-  | hasL => exact ⟨.readQ i, mem_internal_worker hlt (by simp [workerEvents]), by simp [step, h]⟩
-  | readQ b => exact ⟨.readKill i, mem_internal_worker hlt (by simp [workerEvents]), by simp [step, h]⟩
-  | willWait => exact ⟨.wWait i, mem_internal_worker hlt (by simp [workerEvents]), by simp [step, h]⟩
+    exact ⟨.wLock i, mem_internal_worker hlt (by simp [workerEvents]), rfl, by simp [step, h, hf]⟩
+  | hasL => exact ⟨.readQ i, mem_internal_worker hlt (by simp [workerEvents]), rfl, by simp [step, h]⟩
+  | readQ b => exact ⟨.readKill i, mem_internal_worker hlt (by simp [workerEvents]), rfl, by simp [step, h]⟩
+  | willWait => exact ⟨.wWait i, mem_internal_worker hlt (by simp [workerEvents]), rfl, by simp [step, h]⟩
   | waiting => simp [PC.cls] at hb
   | woken =>
     have hf : lockFree s = true := by
       rcases hl with hl | hl
       · exact hl
       · simp [PC.cls] at hl
-    exact ⟨.wRelock i, mem_internal_worker hlt (by simp [workerEvents]), by simp [step, h, hf]⟩
-  | unlocking => exact ⟨.wUnlock i, mem_internal_worker hlt (by simp [workerEvents]), by simp [step, h]⟩
-  | unreg => exact ⟨.unregIdle i, mem_internal_worker hlt (by simp [workerEvents]), by simp [step, h]⟩
-  | exiting => exact ⟨.exit i, mem_internal_worker hlt (by simp [workerEvents]), by simp [step, h]⟩
+    exact ⟨.wRelock i, mem_internal_worker hlt (by simp [workerEvents]), rfl, by simp [step, h, hf]⟩
+  | unlocking => exact ⟨.wUnlock i, mem_internal_worker hlt (by simp [workerEvents]), rfl, by simp [step, h]⟩
+  | unreg => exact ⟨.unregIdle i, mem_internal_worker hlt (by simp [workerEvents]), rfl, by simp [step, h]⟩
+  | exiting => exact ⟨.exit i, mem_internal_worker hlt (by simp [workerEvents]), rfl, by simp [step, h]⟩
   | gone => simp [PC.cls] at hb
 
 theorem class_enabled {s : State} (c : Cls) (hc : 0 < cntOf s.pcs c)
-    (hb : c ≠ .waiting ∧ c ≠ .gone) (hl : lockFree s = true ∨ (c ≠ .idleReg ∧ c ≠ .woken)) :
-    ∃ e ∈ internalEvents s, (step repaired s e).isSome := by
+    (hb : c ≠ .waiting ∧ c ≠ .gone ∧ c ≠ .run) (hl : lockFree s = true ∨ (c ≠ .idleReg ∧ c ≠ .woken)) :
+    ∃ e ∈ internalEvents s, isFinish e = false ∧ (step repaired s e).isSome := by
   obtain ⟨i, p, hi, rfl⟩ := exists_of_cntOf_pos hc
   exact worker_enabled hi hb hl
 
-/-- the only states of the repaired pool without an enabled internal step: every worker is parked in
-    `Wait` or gone, nothing is in flight -/
+/-- the only states of the repaired pool in which no internal step other than the return of a task is
+    enabled: every worker runs a task, is parked in `Wait` or gone, and nothing is in flight -/
 theorem enabled_or_parked {s : State} (hr : Reachable repaired s) :
-    (∃ e ∈ internalEvents s, (step repaired s e).isSome) ∨
-    (s.pcs.length = cntOf s.pcs .waiting + cntOf s.pcs .gone ∧ (abs s).inflight = 0) := by
+    (∃ e ∈ internalEvents s, isFinish e = false ∧ (step repaired s e).isSome) ∨
+    (s.pcs.length = cntOf s.pcs .run + cntOf s.pcs .waiting + cntOf s.pcs .gone ∧ (abs s).inflight = 0) := by
   have hinv := inv_reachable hr
   have hx := hinv.excl
   simp only [abs, holders] at hx
@@ -86,7 +111,7 @@ theorem enabled_or_parked {s : State} (hr : Reachable repaired s) :
   by_cases h1 : 0 < cntOf s.pcs .head; · exact Or.inl (class_enabled _ h1 (by decide) (Or.inr (by decide)))
   by_cases h2 : 0 < cntOf s.pcs .chkT; · exact Or.inl (class_enabled _ h2 (by decide) (Or.inr (by decide)))
   by_cases h2' : 0 < cntOf s.pcs .chkF; · exact Or.inl (class_enabled _ h2' (by decide) (Or.inr (by decide)))
-  by_cases h3 : 0 < cntOf s.pcs .run; · exact Or.inl (class_enabled _ h3 (by decide) (Or.inr (by decide)))
+  by_cases h3 : 0 < cntOf s.pcs .drained; · exact Or.inl (class_enabled _ h3 (by decide) (Or.inr (by decide)))
   by_cases h4 : 0 < cntOf s.pcs .noTask; · exact Or.inl (class_enabled _ h4 (by decide) (Or.inr (by decide)))
   by_cases h5 : 0 < cntOf s.pcs .hasL; · exact Or.inl (class_enabled _ h5 (by decide) (Or.inr (by decide)))
   by_cases h6 : 0 < cntOf s.pcs .readQT; · exact Or.inl (class_enabled _ h6 (by decide) (Or.inr (by decide)))
@@ -100,26 +125,26 @@ theorem enabled_or_parked {s : State} (hr : Reachable repaired s) :
     have ha1 : s.adderL = 1 := by omega
     left
     by_cases hw : cntOf s.pcs .waiting = 0
-    · exact ⟨.aSignal none, by simp [internalEvents], by simp [step, repaired, ha1, hw]⟩
+    · exact ⟨.aSignal none, by simp [internalEvents], rfl, by simp [step, repaired, ha1, hw]⟩
     · obtain ⟨i, p, hi, hc⟩ := exists_of_cntOf_pos (Nat.pos_of_ne_zero hw)
       have hp : p = .waiting := (cls_waiting p).1 hc
       subst hp
-      refine ⟨.aSignal (some i), ?_, by simp [step, repaired, ha1, hi]⟩
+      refine ⟨.aSignal (some i), ?_, rfl, by simp [step, repaired, ha1, hi]⟩
       simp only [internalEvents, List.mem_append, List.mem_flatMap, List.mem_range]
       exact Or.inl ⟨i, lt_of_getElem? hi, Or.inr (by simp)⟩
   have ha : s.adderL = 0 := by omega
   by_cases hs' : 0 < s.swcL
   · have hs1 : s.swcL = 1 := by omega
-    exact Or.inl ⟨.swcBcast, by simp [internalEvents], by simp [step, hs1]⟩
+    exact Or.inl ⟨.swcBcast, by simp [internalEvents], rfl, by simp [step, hs1]⟩
   have hs : s.swcL = 0 := by omega
   have hfree : lockFree s = true := by
     simp [lockFree, holders, ha, hs]; omega
   by_cases h12 : 0 < cntOf s.pcs .idleReg; · exact Or.inl (class_enabled _ h12 (by decide) (Or.inl hfree))
   by_cases h13 : 0 < cntOf s.pcs .woken; · exact Or.inl (class_enabled _ h13 (by decide) (Or.inl hfree))
   by_cases hp : 0 < s.pushed
-  · exact Or.inl ⟨.aLock, by simp [internalEvents], by simp [step, repaired, hp, hfree]⟩
+  · exact Or.inl ⟨.aLock, by simp [internalEvents], rfl, by simp [step, repaired, hp, hfree]⟩
   by_cases hsp : 0 < s.swcPend
-  · exact Or.inl ⟨.swcLock, by simp [internalEvents], by simp [step, hsp, hfree]⟩
+  · exact Or.inl ⟨.swcLock, by simp [internalEvents], rfl, by simp [step, hsp, hfree]⟩
   right
   refine ⟨by omega, ?_⟩
   simp [CState.inflight, abs]; omega
